@@ -641,3 +641,41 @@ func vh_C15_L9_callback_is_never_invoked_under_a_lock() {
 func vh_C15_L10_failed_parked_write_under_concurrent_calls() {
 	vh_C20_L9_parked_write_fails_while_others_go_on()
 }
+
+// C15.L11: the accounting follows the bytes, not the stream object's life cycle. Two messages
+// are in flight on a stream with a low-threshold handler installed (threshold below what is
+// buffered); then one of: (0) the application closes the stream and opens the same
+// identifier again before the acknowledgement arrives - it gets the same stream, which is
+// then released its bytes; (1) the peer resets its direction of the stream - no callback
+// fires (nothing was released) and none under a lock, the association-level figure is still
+// pending plus in-flight bytes, and an accepted later write is counted by both figures.
+func vh_C15_L11_stream_life_cycle_keeps_the_accounting() {
+	f := vInFlight(2, false)
+	a, s := f.a, f.s
+	calls, locked := 0, false
+	s.SetBufferedAmountLowThreshold(1)
+	s.OnBufferedAmountLow(func() {
+		calls++
+		if vMutexHeldNative(&s.lock) || vRWMutexHeldNative(&a.lock) {
+			locked = true
+		}
+	})
+	switch vPick(2) {
+	case 0:
+		vassert(s.Close() == nil, "close accepted")
+		again, err := a.OpenStream(1, PayloadTypeWebRTCBinary)
+		vassert(err == nil && again == s, "opening the identifier of a stream that is still closing returns that stream")
+		vassert(vDeliver(a, &chunkSelectiveAck{cumulativeTSNAck: f.base + 2, advertisedReceiverWindowCredit: 1 << 20}) == nil, "SACK ok")
+		vassert(s.BufferedAmount() == 0 && calls == 1, "the stream that wrote the bytes is released them and told once")
+	case 1:
+		s.onInboundStreamReset() // the peer's outgoing reset of this stream has been performed
+		a.lock.Lock()
+		a.unregisterStream(s, io.EOF)
+		a.lock.Unlock()
+		vassert(calls == 0, "nothing was acknowledged: no downward crossing, no callback")
+		vassert(a.BufferedAmount() == f.total, "the association-level figure is pending plus in-flight user bytes, whichever streams are still registered")
+	}
+	vassert(!locked, "the callback never runs under an internal lock")
+	vassert(vLocksFree(a, s), "no lock is left held")
+	vcover("end")
+}
